@@ -35,7 +35,8 @@ def prop(pid: str, rules: List, explanation: str, not_decided: str, assumptions:
 
 
 prop("C14", [_lazy("state", "rule_ctx1"), _lazy("state", "rule_ctx2"), _lazy("state", "rule_ctx3"),
-             _lazy("state", "rule_glob1"), _lazy("state", "rule_cache1"), _lazy("state", "rule_cache2")],
+             _lazy("state", "rule_glob1"), _lazy("state", "rule_cache1"), _lazy("state", "rule_cache2"),
+             _lazy("emit", "rule_label1"), _lazy("infer", "rule_val1"), _lazy("state", "rule_pure1")],
      "Static decision of the clauses of C14 that are visible in code shape: the thread-local reference context is "
      "saved/restored on every exit and only used through `with` (CTX-1..3); no function reachable from a library "
      "entry point writes module-level, class-level, closure or default-argument state (GLOB-1, effect summaries "
@@ -79,7 +80,7 @@ prop("C05", [_lazy("registry", "rule_reg12"), _lazy("registry", "rule_reg3"), _l
      "models are unchanged'; union-of-fields of a merged model (delegated to merge_field_sets, see C01)")
 
 prop("C09", [_lazy("strtypes", "rule_det1"), _lazy("strtypes", "rule_det2"), _lazy("strtypes", "rule_det3"),
-             _lazy("strtypes", "rule_det4"), _lazy("strtypes", "rule_det5")],
+             _lazy("strtypes", "rule_det4"), _lazy("strtypes", "rule_det5"), _lazy("infer", "rule_val1")],
      "Static decision of the protocol clauses of C09: a registry class is returned as the detected type only where "
      "a completed call of that class's own parser on the unmodified input dominates the return and the rejecting "
      "handler cannot fall through (DET-1); the registry iterates its registration list, which is only appended to "
@@ -155,7 +156,7 @@ prop("C18", [_lazy("converters", "rule_tok1"), _lazy("converters", "rule_tok2"),
      "that converted values equal parsing the original strings; behaviour of the per-field attrs converter form")
 
 prop("C10", [_lazy("emit", "rule_lim"), _lazy("emit", "rule_inj3"), _lazy("emit", "rule_lit"), _lazy("state", "rule_glob1_generators"),
-             _lazy("cli_flow", "rule_optflow_maxlit")],
+             _lazy("cli_flow", "rule_optflow_maxlit"), _lazy("infer", "rule_eq1"), _lazy("infer", "rule_nf7")],
      "Static decision of: every comparison of a literal count with MAX_LITERALS, of a member length with "
      "MAX_STRING_LENGTH and of the member count with the configured maximum flips exactly at the documented "
      "boundary (evaluated at limit-1, limit, limit+1 after normalisation) and compares the size of ONE collection; "
@@ -181,7 +182,7 @@ prop("C11", [_lazy("emit", "rule_inj2"), _lazy("emit", "rule_inj5"), _lazy("emit
 prop("C03", [_lazy("imports", "rule_imp1"), _lazy("imports", "rule_imp2"), _lazy("imports", "rule_shadow1"),
              _lazy("emit", "rule_label1"), _lazy("emit", "rule_dup1"), _lazy("emit", "rule_fwd1"),
              _lazy("emit", "rule_inj2"), _lazy("emit", "rule_inj3"), _lazy("emit", "rule_inj5"), _lazy("emit", "rule_sib1_layout"),
-             _lazy("layout", "rule_lay1"), _lazy("layout", "rule_lay2")],
+             _lazy("layout", "rule_lay1"), _lazy("layout", "rule_lay2"), _lazy("layout", "rule_imp4")],
      "Static decision of: every import tuple a generator can emit (symbolic components expanded over the class "
      "tables) names an existing module and a name bound at its top level, read from the installed sources "
      "(IMP-1); every identifier in an emitted code fragment (templates, default/factory/converter strings, bases) "
@@ -192,7 +193,8 @@ prop("C03", [_lazy("imports", "rule_imp1"), _lazy("imports", "rule_imp2"), _lazy
      "that the module compiles and every annotation evaluates for each concrete input; uniqueness of sanitised "
      "names within a scope; behaviour of inflection/unidecode; names that shadow pydantic BaseModel attributes")
 
-prop("C04", [_lazy("emit", "rule_sib1"), _lazy("emit", "rule_sib2"), _lazy("emit", "rule_inj2"), _lazy("emit", "rule_tbl1"),
+prop("C04", [_lazy("emit", "rule_sib1"), _lazy("emit", "rule_sib2"), _lazy("emit", "rule_inj2"), _lazy("emit", "rule_inj5"),
+             _lazy("emit", "rule_lit"), _lazy("emit", "rule_tbl1"),
              _lazy("state", "rule_cache2"), _lazy("state", "rule_glob1_generators")],
      "Static decision of: on every feasible path of each framework's field_data (path enumeration with a small "
      "abstract state for the kwargs dict) an optional list/dict/scalar field carries default list/dict/None to "
@@ -203,7 +205,8 @@ prop("C04", [_lazy("emit", "rule_sib1"), _lazy("emit", "rule_sib2"), _lazy("emit
      "per instance (GLOB-1).",
      "per-program equality between evaluated annotation and IR type; Jinja whitespace; nested-class indentation")
 
-prop("C12", [_lazy("layout", "rule_lay1"), _lazy("layout", "rule_lay2"), _lazy("layout", "rule_lay3")],
+prop("C12", [_lazy("layout", "rule_lay1"), _lazy("layout", "rule_lay2"), _lazy("layout", "rule_lay3"), _lazy("emit", "rule_inj5"),
+             _lazy("state", "rule_glob1_generators")],
      "Static decision of: in both layout functions the table of structure entries is built once up front and never "
      "rewritten in the placement loop, and on every non-raising path through the per-model loop (path enumeration; "
      "try/except counted once because insert_before raises before inserting) the current model's entry is inserted "
@@ -215,7 +218,7 @@ prop("C12", [_lazy("layout", "rule_lay1"), _lazy("layout", "rule_lay2"), _lazy("
      "graphs (run-time graph shape)")
 
 prop("C01", [_lazy("infer", "rule_opt"), _lazy("infer", "rule_opt2"), _lazy("infer", "rule_opt3"), _lazy("infer", "rule_drop1"),
-             _lazy("emit", "rule_dup1")],
+             _lazy("emit", "rule_dup1"), _lazy("emit", "rule_sib1"), _lazy("infer", "rule_eq1")],
      "Static decision of the optionality / completeness clauses of C01: on every feasible path of the per-field merge "
      "loop (path enumeration with the equality axioms of EQ-1/NF-3) the value left in the merged set is optional "
      "whenever the stored or the incoming side was optional or the field is new in a later set, and the stored type "
@@ -227,7 +230,8 @@ prop("C01", [_lazy("infer", "rule_opt"), _lazy("infer", "rule_opt2"), _lazy("inf
      "resolution are value-level): e.g. resolve() dropping BooleanString, parsers more lenient than pydantic's")
 
 prop("C02", [_lazy("infer", "rule_opt"), _lazy("infer", "rule_nulldet"), _lazy("infer", "rule_widen1"),
-             _lazy("state", "rule_glob1_generators")],
+             _lazy("state", "rule_glob1_generators"), _lazy("infer", "rule_val1"), _lazy("emit", "rule_lim"),
+             _lazy("infer", "rule_nf6")],
      "Static decision of: Optional is introduced in the merge only when justified (converse direction of the OPT "
      "table, OPT-4); Null is produced only under `value is None` and Unknown only under the emptiness test of the "
      "matching container (NULLDET-1); candidates are removed from a union only as documented (Unknown when another "
@@ -246,8 +250,8 @@ prop("C07", [_lazy("infer", "rule_opt"), _lazy("infer", "rule_eq1"), _lazy("emit
      "invariance of the inferred TYPES under permutation (union member sets, literal sets, merged models follow the "
      "values); de-duplication by hash string over dict items in insertion order is an assumption")
 
-prop("C08", [_lazy("infer", "rule_nf"), _lazy("infer", "rule_nf6"), _lazy("infer", "rule_eq1"), _lazy("infer", "rule_widen1"),
-             _lazy("infer", "rule_opt3")],
+prop("C08", [_lazy("infer", "rule_nf"), _lazy("infer", "rule_nf6"), _lazy("infer", "rule_nf7"), _lazy("infer", "rule_eq1"),
+             _lazy("infer", "rule_widen1"), _lazy("infer", "rule_opt3"), _lazy("infer", "rule_val1")],
      "Static decision of: every DUnion construction in the inference code is followed by a size test on the "
      "constructed union that replaces a singleton by its member (or is re-simplified by the optimize_type pass), the "
      "final union is built only from a non-empty candidate list, Optional never wraps Optional (NF-1/2/3); merged "
